@@ -62,8 +62,10 @@ func (p *Project) WorkflowsDir() string {
 // Knows returns true when the project knows the given file. When a file is included in the
 // project's directory, the project knows the file.
 func (p *Project) Knows(path string) bool {
-	// TODO: strings.HasPrefix is not perfect to check file path
-	return strings.HasPrefix(absPath(path), p.root)
+	// Check the prefix at a boundary of path elements. Otherwise "/path/to/repo" would know files
+	// in a sibling directory "/path/to/repo-tools".
+	a := absPath(path)
+	return a == p.root || strings.HasPrefix(a, strings.TrimSuffix(p.root, string(filepath.Separator))+string(filepath.Separator))
 }
 
 // Config returns config object of the GitHub project repository. The config file was read from
